@@ -242,3 +242,10 @@ func (c *Ctx) DirectiveNames() map[string]string {
 	}
 	return out
 }
+
+type pkgT = packages.Package
+
+type (
+	machineT = *scanpds.Machine
+	resultT  = *scanpds.Result
+)
